@@ -101,3 +101,12 @@ package store
 //@   requires SI(s)
 //@   ensures @found err == nil ==> found == has(s, ikey(bytes(key)))
 //@   ensures @size err == nil && found && len(Rkey(s)[Eblk(s)[ikey(bytes(key))]]) == len(key) ==> size == len(val(s, ikey(bytes(key))))
+
+// ---------------------------------------------------------------------------
+// C16: lock discipline ("guarded by").
+//@ type Store
+//@   guarded_by flushRate, lastFlush, flushNotice : rateLk read rateLk.R
+//@   guarded_by open, running, err : stateLk read stateLk.R
+
+//@ func (s *Store) Close() (err error)  property C16
+//@   exclusive Close is the shutdown of the store and is not among the concurrent operations C16 lists
